@@ -18,6 +18,7 @@ NONASCII_PROGRAMS = [
     ("task-block", 'let c: channel<int> = channel()\ntask {\n  let v = 5\n  c.write(v + 1)\n}\nlet w = c.read()\nprintln(w)\n'),
     ("members", 'type Person = {\n  name: string\n  age: int\n}\nextend Person {\n  fn greet(self, g: string = "hi") -> string = g .. " " .. self.name\n}\nlet p = Person("A", 3)\nprintln(p.greet())\nprintln(p.greet(g = "yo"))\nlet xs = [p, p]\nprintln(xs[0].name.len())\n'),
     ("enums", 'type Shape =\n  | Dot\n  | Circle(int)\n  | Rect(w: int, h: int)\nfn area(s: Shape) -> int {\n  match s {\n    .Dot -> 0\n    .Circle(r) -> r * r * 3\n    .Rect(w, h) -> w * h\n  }\n}\nprintln(area(Shape.Rect(2, 3)))\nprintln(area(.Circle(1)))\n'),
+    ("patterns", 'type Point = {\n  x: int\n  y: int\n}\ntype Sh =\n  | Dot\n  | Rect(w: int, h: int = 2)\nfn area(s: Sh, scale: int = 1, off: int = 0) -> int {\n  match s {\n    .Dot -> off\n    .Rect(w = a, h = b) -> a * b * scale + off\n  }\n}\nlet p = Point(x = 1, y = 2)\nlet Point(x = a, y = b) = p\nlet Point(c, d) = p\nprintln(a + b + c + d)\nprintln(area(Sh.Rect(h = 3, w = 4), off = 1, scale = 2))\nmatch p {\n  Point(y = 2, x = k) -> println(k)\n  Point(x = _, y = m) -> println(m)\n}\nlet t = (p.x, [p.y, 3], Sh.Rect(w = 1))\n'),
     ("ifaces", 'interface Show2 {\n  fn show2(self) -> string\n}\nimplement Show2 for int {\n  fn show2(self) -> string = "i" .. self\n}\nfn f(x: T Show2) -> string = x.show2()\nprintln(f(3))\nlet g = (a, b) -> a + b\nprintln(g(1, 2))\n'),
 ]
 
@@ -44,7 +45,7 @@ def run(ctx):
     inputs = []
     corp = [(n, t) for (n, t) in textmut.corpus() if len(t) <= 1500] + list(NONASCII_PROGRAMS) + textmut.generated(ctx.seed * 877 + 34, 40 if q else 600)
     for name, text in corp:
-        special = name.startswith("nonascii") or name in ("task-block", "members", "enums", "ifaces")
+        special = name.startswith("nonascii") or name in ("task-block", "members", "enums", "ifaces", "patterns")
         lim = 4000 if special else ((16 if q else 1600) if len(text) <= 1500 else (6 if q else 100))
         for p in textmut.prefixes(text, r.fork("p", name), lim):
             inputs.append(("prefix:" + name, p))
@@ -52,6 +53,8 @@ def run(ctx):
             inputs.append(("tokmut:" + name, textmut.mutate_tokens(text, r.fork("t", name, i))))
         for i in range(3 if q else 60):
             inputs.append(("chrmut:" + name, textmut.mutate_chars(text, r.fork("c", name, i))))
+        for i in range((60 if special else 4) if q else (1500 if special else 60)):
+            inputs.append(("listmut:" + name, textmut.mutate_lists(text, r.fork("l", name, i))))
     for i in range(500 if q else 15000):
         inputs.append(("soup", textmut.soup(r.fork("s", i))))
     for i, t in enumerate(textmut.FIXED):
